@@ -5,7 +5,7 @@
 //! Actor m (1..n) is the sender thread of member m's channel, actor 0 the selecting thread.
 
 use crate::common::*;
-use crate::sched::{msg_bytes, Gates, St};
+use crate::sched::{msg_bytes, spawn_child_sender, Gates, ProcActor, St};
 use ipc_channel::ipc::{self, IpcReceiverSet, IpcSelectionResult};
 use serde_json::{json, Value};
 use std::collections::HashMap;
@@ -49,12 +49,19 @@ fn run_case(case: &Value, gates: &Gates) -> Value {
     let prog = case["prog"].as_array().cloned().unwrap_or_default();
     let sched = case["sched"].as_array().cloned().unwrap_or_default();
     let n = msgs.len();
+    let procs: Vec<i64> = case["procs"].as_array().map(|a| a.iter().filter_map(|x| x.as_i64()).collect()).unwrap_or_default();
     let mut rxs = HashMap::new();
     let mut handles = Vec::new();
+    let mut pactors: HashMap<i64, ProcActor> = HashMap::new();
     for (i, npks) in msgs.iter().enumerate() {
         let m = i as i64 + 1;
         let (tx, rx) = ipc::channel::<Vec<u8>>().unwrap();
         rxs.insert(m, rx);
+        if procs.contains(&m) {
+            // this member's sender lives in a child process (it can be killed)
+            pactors.insert(m, spawn_child_sender(m, npks, tx));
+            continue;
+        }
         let npks = npks.clone();
         let g = gates.clone();
         g.register(m);
@@ -141,6 +148,37 @@ fn run_case(case: &Value, gates: &Gates) -> Value {
     'sched: for (nstep, st) in sched.iter().enumerate() {
         let a = geti(st, "a");
         let k = gets(st, "k").to_string();
+        if let Some(p) = pactors.get_mut(&a) {
+            if k == "kill" {
+                let _ = p.settle();
+                p.kill();
+                continue;
+            }
+            let mut guard = 0;
+            loop {
+                match p.settle() {
+                    None => {
+                        matched = false;
+                        why = format!("step {}: actor {} finished before a '{}' call", nstep, a, k);
+                        break 'sched;
+                    },
+                    Some(kind) => {
+                        p.grant();
+                        if kind == k {
+                            let _ = p.settle();
+                            break;
+                        }
+                        guard += 1;
+                        if guard > 40 {
+                            matched = false;
+                            why = format!("step {}: actor {} never reached '{}'", nstep, a, k);
+                            break 'sched;
+                        }
+                    },
+                }
+            }
+            continue;
+        }
         let lg = last_gen.get(&a).copied().unwrap_or(0);
         if k == "wake" {
             // the selecting thread sleeps in epoll_wait (or stands at the wait gate after a signal);
@@ -183,8 +221,8 @@ fn run_case(case: &Value, gates: &Gates) -> Value {
         let mut guard = 0;
         loop {
             let lg = last_gen.get(&a).copied().unwrap_or(0);
-            match gates.wait_settled(a, lg, 3000) {
-                None => {
+            match gates.wait_quiescent(a, lg, 3000) {
+                None | Some(St::Running) => {
                     matched = false;
                     why = format!("step {}: actor {} is blocked in the kernel before '{}'", nstep, a, k);
                     break 'sched;
@@ -218,17 +256,24 @@ fn run_case(case: &Value, gates: &Gates) -> Value {
                         break 'sched;
                     }
                 },
-                Some(St::Running) => {},
             }
         }
     }
     gates.free_all();
+    for p in pactors.values_mut() {
+        if !p.finished {
+            p.free();
+        }
+    }
     let out = erx.recv_timeout(Duration::from_secs(10));
     let hang = out.is_err();
     if !hang {
         for h in handles {
             let _ = h.join();
         }
+    }
+    for (_, mut p) in pactors.drain() {
+        let _ = p.child.wait();
     }
     json!({"id": id, "matched": matched, "why": why, "hang": hang, "n": n,
            "observed": out.unwrap_or(json!(null))})
